@@ -26,7 +26,13 @@ Sub-properties
             of the pruned elements are v_i^T dG(t) v_j.
   mpm       matrix_pencil_method on an exact k-exponential correlator returns E_1..E_k (ascending); if every
             configuration is itself an exact multi-exponential with these energies the returned energies do not
-            fluctuate.
+            fluctuate.  Two input classes: 'wide' (k=1..5, gaps 0.1..0.6, T=8..24) and 'close' (k=3..5 closely spaced
+            levels, gaps 0.1..0.35, on short correlators T=2k..16), where the k-th singular value of the Hankel
+            block is 1e-7..1e-10 of the first although the data still determine every energy to better than 1e-7.
+            Tolerance: 1e3 eps cond(Y2) exp(E_n) where that is below 1e-6, else 1e3 eps S_n with the first-order
+            sensitivity S_n of E_n to the data (mpm_sensitivity) where that is below 1e-4; the rest is skipped as
+            ill-conditioned.  Labels svk:* / svk<sqrt(eps) measure how small the smallest singular value is that
+            the method has to keep.
 
 Recorded defects of the unchanged tree (known/F-C16-*.json, excluded from the generators only while open):
   F-C16-1   Corr.prune raises on every correlator with an undefined timeslice.
@@ -50,16 +56,23 @@ RULE = ('Hypothesis-generated model correlator matrices G(t) = Z^T diag(a_n(t)) 
         'mean on 1-2 replicas; symmetric by shared object, symmetric by equal copies, or non-symmetric by an '
         'antisymmetric part; arbitrary undefined timeslices apart from t0/ts), all of sort in Eigenvalue/Eigenvector/'
         'None, method eigh/cholesky, vector_obs on/off, every state; exact k=1..5 exponential single correlators for the '
-        'matrix pencil with every admissible pencil parameter. Non-trivial: N>=3 or t0>=2 or an undefined timeslice '
+        'matrix pencil with every admissible pencil parameter, a third of them with k=3..5 closely spaced levels (gaps '
+        '0.1..0.35) on short correlators (T<=16) so that the smallest singular value the method has to keep is down to 1e-10 '
+        'of the largest (class labels svk:*). Non-trivial: N>=3 or t0>=2 or an undefined timeslice '
         '(matrix pencil: k>=2); distinct = distinct spec hash. Each comparison of a vector direction / eigenvalue is '
         'made only where its a-priori rounding bound (K eps cond(G(t0)) / relative gap or ratio) is below 1e-6; the '
-        'fraction judged is reported in the class histogram.')
+        'fraction judged is reported in the class histogram (matrix pencil beyond that region: judged with 1e3 eps times the '
+        'first-order sensitivity of each energy to the data where this is below 1e-4, label bound:sensitivity).')
 ASSUMPTIONS = [
     'the closed-form eigen-decomposition of G(t) = Z^T diag(a(t)) Z (eigenvectors Z^-1 e_n, eigenvalues a_n(t)/a_n(t0))',
     'eigen-equation residual tolerance 1e-10 (||G(t)|| + |lambda| ||G(t0)||) ||v|| (observed <= 3e-15 at cond(G(t0)) up to 1e7)',
     'directions: sin(angle) <= 1e3 eps cond(G(t0)) / relgap, judged where this is <= 1e-6 (Davis-Kahan; observed constant <= 2)',
     'eigenvalues / energies: relative 1e3 eps (cond(G(t0)) / ratio + cancellation of the bilinear form), judged where <= 1e-6',
     'matrix pencil: |E - E_n| <= 1e3 eps cond(Y2) exp(E_n) (cond = s_1/s_k of the Hankel block; observed constant <= 20), judged where <= 1e-6',
+    'matrix pencil where that bound exceeds 1e-6 (cond(Y2) above about 1e6): |E - E_n| <= 1e3 eps S_n, S_n = sum_t |dE_n/dc(t)| sum_q |A_q| exp(-E_q t) '
+    'the first-order sensitivity of the estimator of eq. (2.17) to the data at the exact correlator (analytic, from the pseudo-inverses of the two '
+    'Vandermonde factors of the Hankel block); observed error <= 18 eps S_n uniformly for cond(Y2) = 1..1e11 on the unchanged tree; judged where '
+    '1e3 eps S_n <= 1e-4 (1e-3 of the smallest gap) and cond(Y2) < 1e11, skipped otherwise',
     'vector_obs=True: "uncertainties are propagated" is read as first-order exactness of the eigen-equation in the fluctuations',
     'numpy/scipy linear algebra is trusted for residuals, condition numbers and the eigenvalues of the pruned matrices',
 ]
@@ -67,6 +80,7 @@ ASSUMPTIONS = [
 EPS = 2.220446049250313e-16
 KTOL = 1e3          # safety factor on the a-priori rounding bounds (observed constants <= 20)
 JUDGE = 1e-6        # a comparison is made only where its bound is below this (tolerance of DESIGN C16)
+JUDGE_MPM = 1e-4    # matrix pencil with the sensitivity bound: judged where KTOL eps S_n is below this (1e-3 of the smallest gap)
 ENS = ['A', 'B', 'ens3']
 MARGIN = {}         # largest observed error / tolerance per kind of comparison (development aid, see DEVGUIDE soundness)
 
@@ -233,13 +247,32 @@ def prune_case(draw, tier):
 
 
 @st.composite
+def close_energies(draw, n):
+    """closely spaced (but clearly non-degenerate: gaps 0.1 .. 0.35) levels."""
+    e0 = draw(st.one_of(gen.fl(0.05, 1.0), st.sampled_from([0.1, 0.3, 0.5])))
+    out = [e0]
+    for _ in range(n - 1):
+        out.append(out[-1] + draw(st.one_of(gen.fl(0.1, 0.35), st.sampled_from([0.15, 0.2, 0.25, 0.3]))))
+    return out
+
+
+@st.composite
 def mpm_case(draw, tier):
-    k = draw(st.sampled_from([1, 2, 2, 3, 3, 4, 5]))
-    T = draw(st.integers(max(8, 2 * k), 24))
-    E = draw(energies(k))
+    # 'close': many closely spaced states on a short correlator.  The k-th singular value of the Hankel block is then
+    # tiny relative to the first (1e-7 .. 1e-10) although the energies are still determined to better than 1e-7 by
+    # the data (the oracle computes the first-order sensitivity of every energy and skips what is not).
+    mode = draw(st.sampled_from(['wide', 'wide', 'close']))
+    if mode == 'close':
+        k = draw(st.sampled_from([3, 4, 4, 5, 5]))
+        T = draw(st.integers(max(8, 2 * k), 16))
+        E = draw(close_energies(k))
+    else:
+        k = draw(st.sampled_from([1, 2, 2, 3, 3, 4, 5]))
+        T = draw(st.integers(max(8, 2 * k), 24))
+        E = draw(energies(k))
     amp = [draw(gen.fl(0.3, 3.0)) * draw(st.sampled_from([1.0, 1.0, -1.0])) for _ in range(k)]
     p = draw(st.one_of(st.none(), st.integers(k, T - k)))
-    spec = {'k': k, 'T': T, 'E': E, 'amp': [amp], 'p': p,
+    spec = {'k': k, 'T': T, 'E': E, 'amp': [amp], 'p': p, 'mode': mode,
             'noise': draw(noise()), 'noise_kind': draw(st.sampled_from(['generic', 'amplitude']))}
     if draw(st.integers(0, 4)) == 0:
         spec['amp'].append([draw(gen.fl(0.3, 3.0)) * draw(st.sampled_from([1.0, -1.0])) for _ in range(k)])
@@ -824,6 +857,37 @@ def prune_oracle(spec):
 # ---------------------------------------------------------------------------------------------------------------
 # matrix pencil
 
+def mpm_sensitivity(E, amps, T, pp):
+    """First-order sensitivity of the matrix-pencil energies to the data, per level: S_n = sum_t |dE_n / dc(t)| m(t) with
+    m(t) = sum_q |A_q| exp(-E_q t) >= |c(t)| (the size of the rounding of c(t) is eps m(t), cancellations included).
+
+    Exact data: Y2 = A B and Y1 = A L B with A[(set, i), n] = A^set_n exp(-E_n i), B[n, j] = exp(-E_n (j + 1)),
+    L = diag(exp(E_n)).  The estimator of eq. (2.17) returns the logarithms of the eigenvalues of the rank-k pencil
+    (Y1, Y2); to first order in a perturbation of the data
+        d lambda_n = (A^+)[n, :] (dY1 - lambda_n dY2) (B^+)[:, n],   dE_n = d lambda_n / lambda_n,
+    dY1[(set, i), j] = dc_set(i + j), dY2[(set, i), j] = dc_set(i + j + 1)   (checked against finite differences of an
+    independent numpy transcription of eq. (2.17) to 1e-7 relative).  This is the condition number of the problem
+    the method solves: the rounding of the data alone moves E_n by about eps S_n.
+    """
+    k = len(E)
+    r = T - pp
+    A = np.concatenate([np.array([[a[n] * math.exp(-E[n] * i) for n in range(k)] for i in range(r)]) for a in amps])
+    B = np.array([[math.exp(-E[n] * (j + 1)) for j in range(pp)] for n in range(k)])
+    Ap, Bp = np.linalg.pinv(A), np.linalg.pinv(B)
+    S = np.zeros(k)
+    for si, a in enumerate(amps):
+        mag = np.array([float(np.sum(np.abs(a) * np.exp(-E * t))) for t in range(T)])
+        for n in range(k):
+            lam = math.exp(E[n])
+            W = np.outer(Ap[n, si * r:(si + 1) * r], Bp[:, n])
+            g = np.zeros(T)
+            for i in range(r):
+                g[i:i + pp] += W[i] / lam
+                g[i + 1:i + pp + 1] -= W[i]
+            S[n] += float(np.sum(np.abs(g) * mag))
+    return S
+
+
 def mpm_oracle(spec):
     import pyerrors as pe
     import scipy.linalg
@@ -857,8 +921,18 @@ def mpm_oracle(spec):
     sv = np.linalg.svd(y2, compute_uv=False)
     cond = float(sv[0] / sv[k - 1]) if sv[k - 1] > 0 else float('inf')
     tol = KTOL * EPS * cond * np.exp(E)
+    bound = 'cond'
     if np.max(tol) > JUDGE:
-        raise Skip('ill-conditioned pencil (bound above 1e-6)')
+        # The bound through cond(Y2) is pessimistic for large condition numbers (observed error / bound falls from 20 at
+        # cond 1e2 to 0.05 at cond 1e10).  What the data determine is measured by the first-order sensitivity of every
+        # energy to the data: observed error <= 18 eps S_n uniformly over cond = 1 .. 1e11 (12 000 cases, unchanged tree).
+        # Such cases are judged with KTOL eps S_n where that is below JUDGE_MPM; the rest is genuinely ill-conditioned.
+        if not (np.isfinite(cond) and cond < 1e11):
+            raise Skip('ill-conditioned pencil (cond(Y2) >= 1e11)')
+        tol = KTOL * EPS * mpm_sensitivity(E, [np.array(a_, dtype=float) for a_ in spec['amp']], T, pp)
+        bound = 'sensitivity'
+        if not np.max(tol) <= JUDGE_MPM:
+            raise Skip('ill-conditioned pencil (sensitivity bound above 1e-4)')
     arg = data[0] if len(data) == 1 else data
     what = 'matrix_pencil_method(k=%d, p=%r, T=%d%s)' % (k, p, T, ', %d correlators' % len(data) if len(data) > 1 else '')
     if p is None:
@@ -868,17 +942,23 @@ def mpm_oracle(spec):
     require(len(res) == k, what + ': %d energies returned' % len(res))
     require(all(isinstance(x, pe.Obs) for x in res), what + ': energies are not Obs', [type(x).__name__ for x in res])
     got = np.array([float(x.value) for x in res])
-    require(within(np.max(np.abs(got - E) / np.maximum(tol, 1e-10)), 1.0, 'mpm_energy'), what + ': energies %r, exact spectrum %r (tolerances %r, cond %.3g)' % (got.tolist(), E.tolist(), tol.tolist(), cond))
+    require(within(np.max(np.abs(got - E) / np.maximum(tol, 1e-10)), 1.0, 'mpm_energy' if bound == 'cond' else 'mpm_energy_sens'), what + ': energies %r, exact spectrum %r (tolerances %r from the %s bound, cond %.3g)' % (got.tolist(), E.tolist(), tol.tolist(), bound, cond))
     if spec['noise_kind'] == 'amplitude':
         # every configuration is an exact multi-exponential with the same energies: no first-order fluctuation
         for q, x in enumerate(res):
             dmax = max([float(np.max(np.abs(d))) for d in x.deltas.values()] + [0.0])
-            require(within(dmax, 1e-8 * cond * relnoise * math.exp(E[q]), 'mpm_fluct'), what + ': energy %d fluctuates (max |delta| = %.3g) although every configuration has exactly the same energies '
+            require(within(dmax, 1e-8 * cond * relnoise * math.exp(E[q]), 'mpm_fluct' if bound == 'cond' else 'mpm_fluct_sens'), what + ': energy %d fluctuates (max |delta| = %.3g) although every configuration has exactly the same energies '
                     '(generic sensitivity cond*noise = %.3g)' % (q, dmax, cond * relnoise))
     labs = ['k:%d' % k, 'p:' + ('default' if p is None else ('low' if p < T / 3 else ('high' if p > 2 * T / 3 else 'mid'))), 'noise:' + spec['noise_kind'],
             'sets:%d' % len(data), 'replicas:%d' % len(ch), 'cond:1e%d' % int(math.log10(max(cond, 1.0)))]
     if any(a_ < 0 for a_ in spec['amp'][0]):
         labs.append('negative_amplitude')
+    # smallest singular value that the method has to keep, relative to the largest
+    svk = 1.0 / cond
+    labs += ['mode:' + spec.get('mode', 'wide'), 'bound:' + bound,
+             'svk:' + ('>=1e-4' if svk >= 1e-4 else ('1e-7..1e-4' if svk >= 1e-7 else '<1e-7'))]
+    if svk < 1.5e-8:
+        labs.append('svk<sqrt(eps)')
     return {'nt': k >= 2, 'cls': labs}
 
 
